@@ -134,6 +134,24 @@ def run(tier, rep):
         enc = ENCS[i % 4]
         mode = rnd.choice(["small", "random", "mixed", "bytewise" if sum(map(len, pieces)) < 400 else "mixed", "all"])
         add(pieces, enc, lambda n, mode=mode: sockdouble.segmentation(rnd, n, mode), rnd.random() < 0.5, "rand")
+    # raw-deflate chunks whose compressed image LOOKS like a zlib stream (first byte's low nibble 8, or
+    # the first two bytes a multiple of 31 with bit 3 set): found by search, placed deterministically
+    import zlib as _z
+
+    alike = []
+    for a_ in range(256):
+        for b_ in range(0, 256, 5):
+            body = bytes([a_, b_]) + b"RTCM3" * 3
+            co = _z.compressobj(wbits=-15)
+            cimg = co.compress(body) + co.flush()
+            if ((cimg[0] << 8) | cimg[1]) % 31 == 0 and cimg[0] & 0x08:
+                alike.append(body)
+            if len(alike) >= (4 if quick else 12):
+                break
+        if len(alike) >= (4 if quick else 12):
+            break
+    for body in alike:
+        add([body, b"xy"], 1 | 8, lambda n: sockdouble.segmentation(rnd, n, "mixed"), True, "zlib-alike")
     verdicts = tr.judge()
     for tid, v in verdicts.items():
         m = tr.meta[tid]
